@@ -456,3 +456,108 @@ pub fn c20_real_test(_w: &mut (), c: &RealShutdown) -> Verdict {
     }
     Verdict::Pass(Good::nontrivial().class(if c.tcp { format!("tcp:{}", bind_to) } else { "unix".to_string() }).class_if(c.hold, "request-held-across-drop").class(format!("peak-threads-above-baseline={}", (peak.saturating_sub(base)).min(64))))
 }
+
+// ------------------------------------------------------------------------------------------
+// C08 over real sockets: idle / stalled connections must not hold up the others.
+// Only positive, re-measured evidence counts: a complete request gets no answer for 5 s while the
+// idle connections are open, and gets it once they are closed — twice in a row, on fresh servers.
+
+#[derive(Clone, Debug, Serialize, Deserialize)]
+pub struct IdleCase {
+    pub tcp: bool,
+    /// connections that are open and silent (0 bytes) or stalled in the middle of a head
+    pub idle: usize,
+    pub idle_partial: bool,
+    /// connections that send a complete request while the idle ones stay open
+    pub active: usize,
+}
+
+pub fn c08_real_strategy() -> BoxedStrategy<IdleCase> {
+    (any::<bool>(), 1usize..=6, any::<bool>(), 1usize..=6).prop_map(|(tcp, idle, idle_partial, active)| IdleCase { tcp, idle, idle_partial, active }).boxed()
+}
+
+/// Some(true): every active connection was answered while the idle ones were open.
+/// Some(false): some active connection was answered only after the idle ones had been closed.
+/// None: inconclusive.
+fn c08_experiment(c: &IdleCase) -> Option<bool> {
+    let path = format!("{}/target/tmp/c08-{}-{:?}.sock", vcore::report::verif_root(), std::process::id(), std::thread::current().id());
+    let _ = std::fs::remove_file(&path);
+    let server = if c.tcp { tiny_http::Server::http("127.0.0.1:0").ok()? } else { tiny_http::Server::http_unix(std::path::Path::new(&path)).ok()? };
+    let addr = server.server_addr();
+    let connect = || -> std::io::Result<Cs> {
+        match &addr {
+            tiny_http::ListenAddr::IP(a) => std::net::TcpStream::connect_timeout(a, Duration::from_secs(2)).map(Cs::T),
+            tiny_http::ListenAddr::Unix(_) => std::os::unix::net::UnixStream::connect(&path).map(Cs::U),
+        }
+    };
+    let mut idle = vec![];
+    for _ in 0..c.idle {
+        let mut s = connect().ok()?;
+        if c.idle_partial {
+            let _ = s.w(b"GET /idle HTTP/1.1\r\nHo");
+        }
+        idle.push(s);
+    }
+    std::thread::sleep(Duration::from_millis(30));
+    let mut active = vec![];
+    for i in 0..c.active {
+        let mut s = connect().ok()?;
+        let _ = s.w(format!("GET /a{} HTTP/1.1\r\nHost: h\r\nConnection: close\r\n\r\n", i).as_bytes());
+        active.push(s);
+    }
+    let mut answered = 0usize;
+    let t0 = Instant::now();
+    while answered < c.active && t0.elapsed() < Duration::from_secs(5) {
+        if let Ok(Some(rq)) = server.recv_timeout(Duration::from_millis(50)) {
+            if rq.url().starts_with("/a") {
+                answered += 1;
+            }
+            let _ = rq.respond(tiny_http::Response::from_string("ok"));
+        }
+    }
+    if answered == c.active {
+        // finish the idle ones too
+        for s in idle.iter_mut() {
+            let _ = s.w(if c.idle_partial { b"st: h\r\nConnection: close\r\n\r\n".as_slice() } else { b"GET /idle HTTP/1.1\r\nHost: h\r\nConnection: close\r\n\r\n".as_slice() });
+        }
+        let t1 = Instant::now();
+        let mut done = 0;
+        while done < c.idle && t1.elapsed() < Duration::from_secs(5) {
+            if let Ok(Some(rq)) = server.recv_timeout(Duration::from_millis(50)) {
+                done += 1;
+                let _ = rq.respond(tiny_http::Response::from_string("ok"));
+            }
+        }
+        return Some(true);
+    }
+    // the intervention: close the idle connections; does the missing answer come now?
+    drop(idle);
+    let t2 = Instant::now();
+    while answered < c.active && t2.elapsed() < Duration::from_secs(5) {
+        if let Ok(Some(rq)) = server.recv_timeout(Duration::from_millis(50)) {
+            if rq.url().starts_with("/a") {
+                answered += 1;
+            }
+            let _ = rq.respond(tiny_http::Response::from_string("ok"));
+        }
+    }
+    if answered == c.active {
+        Some(false)
+    } else {
+        None
+    }
+}
+
+pub fn c08_real_test(_w: &mut (), c: &IdleCase) -> Verdict {
+    match c08_experiment(c) {
+        Some(true) => Verdict::Pass(if c.idle + c.active >= 5 { Good::nontrivial() } else { Good::trivial() }.class(if c.tcp { "tcp" } else { "unix" }).class(if c.idle_partial { "idle:partial-head" } else { "idle:silent" })),
+        None => Verdict::Inconclusive("an active connection was not answered within 10 s, with or without the idle connections".into()),
+        Some(false) => match c08_experiment(c) {
+            Some(false) => fail(
+                if c.idle_partial { "C08/real/request-waits-for-stalled-connection-to-end" } else { "C08/real/request-waits-for-silent-connection-to-end" },
+                format!("twice in a row ({} idle + {} active connections, {}): a complete request got no answer for 5 s while the idle connections were open and was answered once they had been closed", c.idle, c.active, if c.tcp { "TCP" } else { "UNIX" }),
+            ),
+            _ => Verdict::Inconclusive("a request was answered only after idle connections had been closed, but this did not repeat".into()),
+        },
+    }
+}
